@@ -183,6 +183,7 @@ package datatypes
 //@   ensures[reported-exactly-once] old(dueTo(its.state)) ==> G.stateChanges == old(G.stateChanges) + 1 && G.lastStateTold == model.StateOfDatatype_SUBSCRIBED
 //@   ensures[no-other-report]      !old(dueTo(its.state)) ==> G.stateChanges == old(G.stateChanges) && its.state == old(its.state) && its.id == old(its.id)
 //@   ensures[checkpoint-untouched] its.checkPoint.Sseq == old(its.checkPoint.Sseq) && its.checkPoint.Cseq == old(its.checkPoint.Cseq)
+//@   ensures[identifier-object-stays] its.opID != nil
 //@   ensures[late-subscriber-restarts-numbering] old(its.state) == model.StateOfDatatype_DUE_TO_SUBSCRIBE_CREATE && ppp.GetPushPullPackOption().HasSubscribeBit() ==> len(its.localBuffer) == 0 && its.opID.Seq == 0 && its.opID.Lamport == 1 && its.opID.CUID == old(its.opID.CUID)
 //@   ensures[otherwise-buffer-kept] !(old(its.state) == model.StateOfDatatype_DUE_TO_SUBSCRIBE_CREATE && ppp.GetPushPullPackOption().HasSubscribeBit()) ==> len(its.localBuffer) == old(len(its.localBuffer)) && its.opID == old(its.opID)
 //@   modifies BaseDatatype.state, BaseDatatype.id, BaseDatatype.opID, WiredDatatype.localBuffer, G:stateChanges, G:lastStateTold
@@ -200,7 +201,7 @@ package datatypes
 //@   ensures[handlers-told-once]      spawned("datatypes.(*WiredDatatype).callHandlers") == old(spawned("datatypes.(*WiredDatatype).callHandlers")) + 1
 //@   ensures[error-reply-changes-nothing] old(ppp.GetPushPullPackOption().HasErrorBit()) ==> its.checkPoint.Sseq == old(its.checkPoint.Sseq) && its.checkPoint.Cseq == old(its.checkPoint.Cseq) && len(its.localBuffer) == old(len(its.localBuffer)) && its.opID.Seq == old(its.opID.Seq) && G.receiveCalls == old(G.receiveCalls) && its.state == old(its.state)
 //@   ensures[plain-reply-applied-once] !old(ppp.GetPushPullPackOption().HasErrorBit()) && !old(ppp.GetPushPullPackOption().HasSubscribeBit()) ==> G.receiveCalls == old(G.receiveCalls) + 1
-//@   ensures[after-a-subscribe-reply-the-rollback-point-is-the-subscribed-datatype] !old(ppp.GetPushPullPackOption().HasErrorBit()) && old(ppp.GetPushPullPackOption().HasSubscribeBit()) && old(dueTo(its.state)) && G.receiveCalls > old(G.receiveCalls) ==> its.TransactionDatatype.$rbID == its.id && its.id == ppp.DUID
+//@   ensures[after-a-subscribe-reply-the-rollback-point-is-the-subscribed-datatype] !old(ppp.GetPushPullPackOption().HasErrorBit()) && old(ppp.GetPushPullPackOption().HasSubscribeBit()) && old(dueTo(its.state)) && G.receiveCalls > old(G.receiveCalls) ==> its.TransactionDatatype.$rbID == old(ppp.DUID)
 //@   ensures[a-stale-or-repeated-reply-hands-nothing-to-the-datatype-in-any-state] !old(ppp.GetPushPullPackOption().HasErrorBit()) && !old(ppp.GetPushPullPackOption().HasSubscribeBit()) && old(cpInRange(its.checkPoint, ppp.CheckPoint)) && old(pulledOf(its.checkPoint, ppp.CheckPoint)) <= 0 ==> G.lastReceived == 0
 //@   modifies *
 
